@@ -16,7 +16,7 @@ Open Scope Z_scope.
 (* ---------------------------------------------------------------- Orchestrator.fit_predict *)
 
 Lemma gen_rejects_is_model fl : gen_rejects fl = ow_fit fl && negb (save_fit fl).
-Proof. reflexivity. Qed.
+Proof. unfold gen_rejects. destruct fl as [a b c d]. destruct a, b, c, d; reflexivity. Qed.
 
 Lemma gen_has_pred_is_has hdd k st : gen_has_pred hdd k st = has hdd k st.
 Proof. destruct hdd; reflexivity. Qed.
@@ -28,12 +28,13 @@ Proof. destruct hdd; reflexivity. Qed.
    train / predict test, each under the guard of the source *)
 Lemma gen_plan_task_is_plan_task hdd fl st t : gen_plan_task hdd fl st t = plan_task hdd fl st t.
 Proof.
-  unfold gen_plan_task, plan_task. cbv zeta.
-  rewrite (gen_has_pred_is_has hdd (tkey t ITrain) st), (gen_has_pred_is_has hdd (tkey t ITest) st),
-    (gen_has_fit_is_has hdd (tkey t IFit) st).
+  (* semantic: both sides are decision trees over the backend, the four flags and the three
+     existence checks; compare them on all 256 valuations (any equivalent control structure of the
+     source - guard clauses, nested or merged conditions, duplicated tails - proves) *)
+  unfold gen_plan_task, plan_task, gen_has_pred, gen_has_fit, has. cbv zeta.
   destruct fl as [a b c d]. cbn [ow_pred on_train save_fit ow_fit].
-  destruct (has hdd (tkey t ITrain) st), (has hdd (tkey t ITest) st), (has hdd (tkey t IFit) st),
-    a, b, c, d; reflexivity.
+  destruct hdd, (fhas (tkey t ITrain) (sfiles st)), (fhas (tkey t ITest) (sfiles st)),
+    (fhas (tkey t IFit) (sfiles st)), a, b, c, d; reflexivity.
 Qed.
 
 (* ---------------------------------------------------------------- Orchestrator._iter *)
@@ -127,7 +128,7 @@ Section Run.
       | NotImpl => (cstore c, ev, NotImplemented)
       end.
   Proof.
-    unfold run. change (gen_rejects fl) with (ow_fit fl && negb (save_fit fl)).
+    unfold run. rewrite (gen_rejects_is_model fl).
     change (gen_tasks_of strats data) with (tasks_of strats data).
     destruct (ow_fit fl && negb (save_fit fl)); [reflexivity|].
     destruct (run_tasks fitf predf hdd fl fail (tasks_of strats data) (st, 0, 0)) as [[c ev] s].
